@@ -97,6 +97,57 @@ def gen(tier, rnd):
     return R
 
 
+def gen_defer(tier, rnd):
+    """table 6: handlers that defer their answer (coap_register_async), repeats of the request while the answer is pending"""
+    C = []
+    mid = [0x100]
+
+    def rq(ty, tok, path, newmid=True):
+        if newmid:
+            mid[0] = (mid[0] + 1) & 0xffff
+        return enc(ty, 1, mid[0], tok, [(11, path)]).hex()
+    for res in (b'w', b'v'):
+        rel = ['T'] if res == b'w' else ['W 4000']
+        for ty in (0, 1):
+            t1, t2 = b'\x11\x01', b'\x22'
+            a = rq(ty, t1, res)
+            a2 = rq(ty, t1, res)          # same token, new message id (the client asks again)
+            b = rq(ty, t2, res)
+            pa = rq(ty, b'\x33', b'a')
+            C.append(['J %s 1' % a] + rel)
+            C.append(['J %s 1' % a, 'J %s 1' % a] + rel)                                  # network duplicate while pending
+            C.append(['J %s 1' % a, 'J %s 1' % a, 'J %s 1' % a] + rel + ['J %s 1' % pa])
+            C.append(['J %s 1' % a, 'J %s 1' % a2] + rel)
+            C.append(['J %s 1' % a, 'J %s 2' % a] + rel)                                  # another peer, same token: its own answer
+            C.append(['J %s 1' % a] + rel + ['J %s 1' % a2] + rel)                         # asked again after the answer: a new request
+            C.append(['J %s 1' % a, 'J %s 1' % b, 'J %s 1' % a, 'J %s 1' % pa, 'J %s 1' % b] + rel)
+            C.append(['J %s 1' % a, 'I %s' % pa, 'J %s 1' % a] + rel + ['I %s' % pa])
+            if res == b'v':
+                C.append(['J %s 1' % a, 'W 1000', 'J %s 1' % a, 'W 4000'])
+                C.append(['J %s 1' % a, 'J %s 2' % b, 'W 500', 'J %s 2' % b, 'J %s 1' % a, 'W 4000', 'J %s 1' % a2, 'W 4000'])
+            else:
+                C.append(['J %s 1' % a, 'W 4000', 'J %s 1' % a, 'T', 'W 4000'])
+                C.append(['J %s 1' % a, 'T', 'J %s 2' % b, 'J %s 2' % b, 'T', 'T'])
+    # both kinds mixed, CON and NON, several peers, random order of repeats and releases
+    for _ in range(60 if tier == 'quick' else 3000):
+        ls, out = [], []
+        for k in range(rnd.randint(1, 4)):
+            ty = rnd.choice((0, 1))
+            res = rnd.choice((b'w', b'v'))
+            out.append((rq(ty, bytes([0x40 + k, rnd.randrange(256)]), res), rnd.randint(1, 3)))
+        for _k in range(rnd.randint(2, 9)):
+            r = rnd.random()
+            if r < 0.6:
+                h, p = rnd.choice(out)
+                ls.append('J %s %d' % (h, p))
+            elif r < 0.8:
+                ls.append('T')
+            else:
+                ls.append('W %d' % rnd.choice((300, 4000)))
+        C.append(ls + ['T', 'W 4000'])
+    return C
+
+
 def run(pid, tier):
     t0 = time.time()
     rnd = random.Random(V.seed() * 31337 + 10)
@@ -113,6 +164,9 @@ def run(pid, tier):
         for i in range(0, len(rs), 150):
             cid += 1
             cases.append((cid, ['X id=%d table=%d' % (cid, tb)] + ['I %s%s' % (h, ' m' if mc else '') for (_t, h, mc) in rs[i:i + 150]] + ['E']))
+    for ls in gen_defer(tier, rnd):
+        cid += 1
+        cases.append((cid, ['X id=%d table=6' % cid] + ls + ['E']))
     jobs = []
     for ci in range(V.NCPU):
         ch = cases[ci::V.NCPU]
@@ -141,10 +195,11 @@ def run(pid, tier):
                     f.write(data + b'{"e":"Crash"}\n')
     results = V.validate_traces('Trace_Server', [j[1] for j in jobs], xss='256m', xmx='4g')
     bycase = dict(cases)
-    vio_out, nreq, nmulti = [], 0, 0
+    vio_out, nreq, nmulti, ndef = [], 0, 0, 0
     for r in results:
         nreq += r['executions']
         nmulti += r.get('requests_with_several_allowed_outcomes', 0)
+        ndef += r.get('deferred_answers', 0)
         for rj in r['rejected']:
             ls = bycase.get(rj['id'], [])
             one = [ls[0], ls[1 + rj['n']], 'E'] if rj.get('n', -1) >= 0 and len(ls) > 1 + rj['n'] else ls
@@ -156,9 +211,9 @@ def run(pid, tier):
     V.write_evidence(pid, tier, 'model_checking', dict(
         states=mcst['distinct'], transitions=mcst['generated'], traces_validated_against_impl=nreq,
         samples=[cases[0][1][:4], cases[-1][1][:4]], requests_judged=nreq, requests_with_several_allowed_outcomes=nmulti,
-        tables=6, exhaustive=False,
+        tables=7, deferred_answers_judged=ndef, exhaustive=False,
         rule='feature product (method x type x path x table; every option feature singly and sampled pairs on existing/missing resources; '
-             'invalid code classes; multicast; random) concretised into datagrams, injected into the real server; for each datagram TLC decodes the '
+             'invalid code classes; multicast; random; handlers that defer their answer with repeats of the request while it is pending) concretised into datagrams, injected into the real server; for each datagram TLC decodes the '
              'raw bytes, evaluates Server!Decide and compares handler invocation (+ arguments), reply count, reply shape and code'),
         time.time() - t0, violations=len(vio_out),
         assumptions=['diagnostic payloads, message ids of NON replies and echoed options of 4.02 are not constrained',
